@@ -276,6 +276,22 @@ PROPS["C07"] = {
 PROPS["C10"]["harnesses"] += [dict(h) for h in PROPS["C07"]["harnesses"][7:]]
 PROPS["C11"]["harnesses"] += [dict(h) for h in PROPS["C07"]["harnesses"][8:10]]
 
+_C18Q = ["udp-mio-announce-v4", "udp-mio-announce-v6", "udp-uring-announce-v4", "udp-uring-announce-v6", "udp-mio-scrape", "udp-uring-scrape",
+         "http-announce-v4", "http-announce-v6", "http-scrape"]
+PROPS["C18"] = {
+    "level": "model_checking",
+    "engine": "z3",
+    "technique": "SMT (QF_LIA) queries over the whole configuration space, regenerated from constants and start-up validation read out of /repo's sources; z3 decides, cvc5 must agree; sat models replayed on the real writers",
+    "functions": ["udp common.rs BUFFER_SIZE, uring RESPONSE_BUF_LEN/REQUEST_BUF_LEN, http connection.rs REQUEST/RESPONSE_BUFFER_SIZE + header, config defaults and field types, run() validation",
+                  "reply size = fixed + per-element * n on the real writers (Kani: C13 c13_*_response_*, C14 c14_*_reply_*)"],
+    "bounds": "none on configuration values (full usize / u8 ranges) or element counts; two queries per (tracker, back end, reply kind): default configuration, any accepted configuration",
+    "outside": "WebTorrent tracker (message sizes are bounded by websocket_max_message_size, not by a fixed reply buffer); reply-size formulas beyond the element counts the Kani lemmas cover are extrapolated linearly (writer loops add a constant per element); "
+               "counters are taken single-digit (conservative: longer counters only enlarge replies); start-up validation is recognised only in the shape `if config.protocol.<field> > <expr> {` inside run()",
+    "models": [],
+    "assumptions": ["a reply holds at most min(requested, max_response_peers|max_peers) peers (C02) and at most max_scrape_torrents entries (C06/C07)"],
+    "harnesses": [H("smt", q, "exists accepted config + accepted request with reply longer than its buffer? (default config; any config)", "unbounded", [], engine="z3", cost=1) for q in _C18Q],
+}
+
 
 def all_harnesses(prop):
     return list(PROPS[prop]["harnesses"])
